@@ -289,6 +289,50 @@ class Ref:
 
 
 # =============================================================== API generators
+def normalise_oneofs(api):
+    """protoc requires the synthetic oneofs of proto3-optional fields to come after every real oneof. The shared
+    random-field helper appends a real oneof after synthetic ones when an optional field was drawn first; reorder the
+    declarations (real first, both groups in their original order) and renumber oneof_index accordingly."""
+    def fix(m):
+        synth = {f.oneof_index for f in m.field if f.proto3_optional and f.HasField("oneof_index")}
+        n = len(m.oneof_decl)
+        order = [i for i in range(n) if i not in synth] + [i for i in range(n) if i in synth]
+        if order != list(range(n)):
+            names = [m.oneof_decl[i].name for i in order]
+            new_index = {old: new for new, old in enumerate(order)}
+            for k, nm in enumerate(names):
+                m.oneof_decl[k].name = nm
+            for f in m.field:
+                if f.HasField("oneof_index"):
+                    f.oneof_index = new_index[f.oneof_index]
+        for nmsg in m.nested_type:
+            fix(nmsg)
+    for f in api.files:
+        for m in f.proto.message_type:
+            fix(m)
+
+
+def build_request(api, **kw):
+    normalise_oneofs(api)
+    return api.request(**kw)
+
+
+def first_valid(make, tag, tries=12):
+    """The first candidate (rng index 0, 1, ...) that is a valid descriptor set; (None, [errors]) when none is."""
+    errs = []
+    for k in range(tries):
+        try:
+            return make(env_rng(tag, k)), errs
+        except apigen.Invalid as e:
+            errs.append(str(e)[:200])
+    return None, errs
+
+
+def env_rng(tag, k):
+    from .. import env
+    return env.rng(tag, k)
+
+
 def conventional_plus(r, features=None, file_shapes=False):
     """apis.conventional extended with the shapes C16 quantifies over. Returns (api, knobs)."""
     allf = ["lro", "streaming", "custom", "second_service", "multi_file", "nested_resource"]
@@ -522,7 +566,7 @@ def subpackage_api(r):
     s.rpc("Purge", preq.fqn, pres.fqn, http=("post", "/v1/{name=things/*}:purge"), body="*")
     s.rpc("Audit", preq.fqn, pres.fqn, http=("post", "/v1/{name=things/*}:audit"), body="*")
     api.files.insert(1, sub)
-    req = api.request()
+    req = build_request(api)
     mbs = methods_by_service(req)
     root = next(f"{sv}.{ms[0]}" for sv, ms in mbs if not sv.startswith(pkg + ".admin."))
     subm = f"{pkg}.admin.AdminOps.Purge"
@@ -542,7 +586,7 @@ def dep_package_api(r):
     req0 = next(m for m in api.main.proto.message_type if m.name.endswith("Request"))
     num = max(f.number for f in req0.field) + 1
     apigen.Msg(None, req0, "").field("meta", num, meta.fqn).field("meta_ref", num + 1, "string", ref="common.acme.test/Meta")
-    return api.request(extra_files=[dep], to_generate=[f.proto.name for f in api.files]), knobs | {"dep_package"}
+    return build_request(api, extra_files=[dep], to_generate=[f.proto.name for f in api.files]), knobs | {"dep_package"}
 
 
 def pick_subsets(r, mbs, limit, first=()):
